@@ -125,6 +125,22 @@ def run(ctx):
         ctx.check_array("valid_result", site, validity(dst, Pd), 1e-9 if dst != "mrp" else 1e-12, {"source": srcP})
         ctx.distinct(srcP, O.rot_angle(Rref) > 1e-6)
         ctx.sample({"pair": site, "source": srcP[min(len(srcP) - 1, 40)]})
+        if src != "matrix":
+            # numeric (DM) call path on a sub-sample incl. near-identity rotations
+            sel = np.concatenate([np.arange(min(40, len(P))), rng.choice(len(P), 60)])
+            tiny = s.from_axang(O.random_axes(rng, 20), O.loguniform(rng, 1e-9, 2e-3, 20), rng)
+            Pn = np.concatenate([P[sel], tiny])
+            errs = []
+            for k in range(len(Pn)):
+                try:
+                    v = ca.DM(getattr(groups[dst], METH[src])(groups[src].elem(ca.DM(Pn[k]))).param).full().ravel()
+                    Rk = s.mat(Pn[k][None])[0]
+                    e = np.abs(SO3S[dst].mat(v[None])[0] - Rk).max() if np.isfinite(v).all() else np.inf
+                    inband = dst == "euler" and SO3S["euler"].gimbal_dist(Rk[None])[0] < 1.2e-3
+                    errs.append(0.0 if (inband and e <= 2.01e-3) else e)
+                except Exception as ex:
+                    errs.append(np.inf)
+            ctx.check_array("numeric_same_rotation", site, errs, 1e-9, {"source": Pn})
         if dst == "quat" and src in ("matrix", "dcm", "euler"):
             ctx.note("shepperd_cells:" + site, sorted(ctx.cells.get("convert:" + site, [])))
 
